@@ -167,6 +167,8 @@ def finish(REG, prop, tier, seed, t0, reports, sanity, extra, props_mod):
         alarms.append("the deliberately false obligation was NOT refuted: solver plumbing is not alive")
     os.makedirs(os.path.join(HERE, "evidence"), exist_ok=True)
     os.makedirs(os.path.join(HERE, "replay", prop), exist_ok=True)
+    for old in os.listdir(os.path.join(HERE, "replay", prop)):
+        os.unlink(os.path.join(HERE, "replay", prop, old))
     lines = []
     violations = 0
     known_hit = []
